@@ -324,6 +324,11 @@ func TestMentionsShardTable(t *testing.T) {
 		{"select * from a join `ORDER-ITEMS` b on a.id = b.id", true},
 		{"select * from a, `order-lines`", false},
 		{"select items from a", false},
+		{"select * from a,/*!50000tbl_ks */", true},
+		{"select * from a join/*!M100100TBL_KS */", true},
+		{"select * from a,/*!500001tbl_ks */", true},
+		{"select * from a,/*!5000tbl_ks */", false},
+		{"select * from a, 50000tbl_ks", false},
 	}
 	for _, tt := range tests {
 		assert.Equal(t, tt.want, MentionsShardTable(tt.sql, rt), tt.sql)
